@@ -16,15 +16,25 @@ use std::str::FromStr;
 use std::sync::Arc;
 use uuid::Uuid;
 
-pub const U64_EDGE: [u64; 10] = [
+pub const U64_EDGE: [u64; 19] = [
     0,
     1,
+    255,
+    256,
+    65_535,
+    65_536,
+    (1 << 31) - 1,
+    1 << 31,
+    (1 << 32) - 1,
     1 << 32,
     (1 << 53) - 1,
     1 << 53,
     (1 << 53) + 1,
     1 << 63,
     (1 << 63) + 1,
+    // the largest 19-digit and the smallest 20-digit decimal
+    9_999_999_999_999_999_999,
+    10_000_000_000_000_000_000,
     u64::MAX - 1,
     u64::MAX,
 ];
@@ -227,8 +237,18 @@ pub fn txv(rng: &mut Rng) -> Transaction {
     }
 }
 
+/// list lengths: mostly small; one in 12 around a decimal-width change (9-11, 99-101), one in 48 in
+/// the hundreds up to past 2^10 (buffers, capacity hints and length prefixes change there)
+pub fn list_len(rng: &mut Rng, small: &[usize]) -> usize {
+    match rng.below(48) {
+        0 => *rng.pick(&[255usize, 256, 257, 600, 999, 1000, 1001, 1023, 1024, 1025]),
+        1..=4 => *rng.pick(&[9usize, 10, 11, 31, 32, 33, 64, 65, 99, 100, 101, 128]),
+        _ => *rng.pick(small),
+    }
+}
+
 pub fn txlistv(rng: &mut Rng) -> TransactionList {
-    let n = *rng.pick(&[0usize, 0, 1, 2, 3, 5]);
+    let n = list_len(rng, &[0usize, 0, 1, 2, 3, 5]);
     TransactionList::from_vec((0..n).map(|_| txv(rng)).collect())
 }
 
@@ -237,7 +257,7 @@ pub fn mrv(rng: &mut Rng) -> MatchResult {
     m.transactions = txlistv(rng);
     m.remaining_quantity = u64v(rng);
     m.is_complete = rng.chance(1, 2);
-    let n = *rng.pick(&[0usize, 0, 1, 2, 4]);
+    let n = list_len(rng, &[0usize, 0, 1, 2, 4]);
     m.filled_order_ids = (0..n).map(|_| idv(rng)).collect();
     m
 }
@@ -258,13 +278,13 @@ pub fn stats_repr(s: &PriceLevelStatistics) -> String {
 
 /// a level with `n` distinct orders at its own price (quantities bounded so aggregates fit)
 pub fn levelv(rng: &mut Rng, n: usize) -> PriceLevel {
-    let price = *rng.pick(&[0u64, 1, 100, 1 << 53, u64::MAX]);
+    let price = if rng.chance(1, 2) { *rng.pick(&[0u64, 1, 100, 1 << 53, u64::MAX]) } else { u64v(rng) };
     let l = PriceLevel::new(price);
     for i in 0..n {
         let kind = KINDS[rng.usize_below(7)];
         let mut p = paramsv(rng);
         p.thr = rng.below(10);
-        let q = if rng.chance(1, 8) { 1u64 << 58 } else { rng.below(1000) };
+        let q = if i < 16 && rng.chance(1, 8) { 1u64 << 58 } else { rng.below(1000) };
         let h = if kind.layered() { rng.below(1000) } else { 0 };
         let id = model::oid(1 + i as u64 * 3 + rng.below(3));
         // an order may carry a price other than the level's (add_order does not object)
@@ -312,6 +332,8 @@ pub struct RtStats {
     pub total: u64,
     pub distinct: std::collections::HashSet<u64>,
     pub samples: Vec<String>,
+    /// most orders in one level / queue that went through a round-trip
+    pub widest: usize,
 }
 
 impl RtStats {
@@ -459,9 +481,11 @@ pub fn text_batch(rng: &mut Rng, grid: bool, n_random: usize, st: &mut RtStats) 
         };
         rt_text("PriceLevelSnapshot", &s, |s| format!("{} {} {} {}", s.price, s.visible_quantity, s.hidden_quantity, s.order_count), st);
         if rng.chance(1, 4) {
-            let n = rng.usize_below(6);
+            let n = list_len(rng, &[0, 1, 2, 3, 4, 5]);
+            st.widest = st.widest.max(n);
             rt_text("PriceLevel", &levelv(rng, n), level_repr, st);
-            let n = rng.usize_below(6);
+            let n = list_len(rng, &[0, 1, 2, 3, 4, 5]);
+            st.widest = st.widest.max(n);
             rt_text("OrderQueue", &queuev(rng, n), queue_repr, st);
         }
     }
@@ -520,7 +544,8 @@ pub fn json_batch(rng: &mut Rng, grid: bool, n_random: usize, st: &mut RtStats) 
         rt_json("MatchResult", &mrv(rng), dbg, st);
         rt_json("PriceLevelStatistics", &statsv(rng), stats_repr, st);
         if rng.chance(1, 3) {
-            let n = rng.usize_below(6);
+            let n = list_len(rng, &[0, 1, 2, 3, 4, 5]);
+            st.widest = st.widest.max(n);
             let l = levelv(rng, n);
             rt_json("PriceLevel", &l, level_repr, st);
             let s = l.snapshot();
@@ -563,7 +588,8 @@ pub fn json_batch(rng: &mut Rng, grid: bool, n_random: usize, st: &mut RtStats) 
             }
             let d = PriceLevelData::from(&l);
             rt_json("PriceLevelData", &d, dbg, st);
-            let n = rng.usize_below(6);
+            let n = list_len(rng, &[0, 1, 2, 3, 4, 5]);
+            st.widest = st.widest.max(n);
             rt_json("OrderQueue", &queuev(rng, n), queue_repr, st);
         }
     }
